@@ -1020,9 +1020,6 @@ def requirements(agg, tier):
   for k in ("velocimeter", "gyro", "accelerometer"):
     if f"{k}/site" not in obj_sp:
       unmet.append(f"{k} never compared on a spinning body with off-centre inertial frame")
-  import os as _os  # TEMP
-  if _os.environ.get("C07_SHOW"):  # TEMP
-    print("C07_SHOW", {k: (v if isinstance(v, int) else len(v)) for k, v in cov.items() if k.startswith("frame_") or k.startswith("kind:") or k.startswith("cutoff")}, sorted(x for x in cov.get("features", []) if x.startswith("frame_")))  # TEMP
   both = len(cov.get("frame_obj_and_ref_offcentre_spinning", []))
   if both < 140:
     unmet.append(f"only {both} of 175 (frame sensor, objtype, reftype) triples compared with object and reference on different spinning off-centre bodies")
